@@ -9,7 +9,7 @@ import ast
 
 from ..dataflow import RD
 from ..exprmodel import expression_classes, handwritten_expr_classes
-from ..loader import AnalysisError, ClassInfo, FuncInfo, Tree, unparse, walk_function
+from ..loader import AnalysisError, ClassInfo, FuncInfo, Tree, ancestors, unparse, walk_function
 from ..report import Check
 from .c14 import check_shallow_hooks
 
@@ -152,6 +152,132 @@ def check_attribute_identity(ctx: Check, tree: Tree) -> None:
         raise AnalysisError(f"only {n} call sites pass a non-SymPy attribute (10+ confirmed)")
 
 
+def check_toplevel_classes(ctx: Check, tree: Tree) -> None:
+    """R-TOPLEVEL: pickle stores a class by module and __qualname__; an expression class that is
+    defined inside a function (a class factory) has the qualname `factory.<locals>.Name` and
+    cannot be looked up again: dumps() of any expression that contains an instance raises."""
+    n_top = 0
+    bad = []
+    for mod in tree.modules.values():
+        if not mod.name.startswith("ampform"):
+            continue
+        for node in ast.walk(mod.tree):
+            if not isinstance(node, ast.ClassDef):
+                continue
+            is_expr = any(unparse(d).split("(")[0].endswith("unevaluated") for d in node.decorator_list) or any(
+                unparse(b) in {"sp.Expr", "sp.Basic", "sp.Function", "sp.Symbol", "NumPyPrintable", "sp.Sum", "sp.Integral", "sp.MatrixSymbol", "sp.Indexed", "sp.IndexedBase"} for b in node.bases)
+            if not is_expr:
+                continue
+            enclosing = [a for a in ancestors(node) if isinstance(a, (ast.FunctionDef, ast.AsyncFunctionDef, ast.Lambda))]
+            if enclosing:
+                bad.append((mod, node, enclosing[0]))
+            else:
+                n_top += 1
+    for mod, node, f in bad:
+        ctx.violation("R-TOPLEVEL", f"{mod.name}::{getattr(f, 'name', 'lambda')}.<locals>.{node.name}", f"{mod.relpath}:{node.lineno}",
+                      f"{mod.name}: expression class `{node.name}` is defined inside `{getattr(f, 'name', 'lambda')}()`",
+                      "pickle cannot find a function-local class by module + qualname: `Can't pickle local object` for every expression that contains an instance (also perform_cached_doit)")
+    if n_top < 30:
+        raise AnalysisError(f"only {n_top} top-level expression classes found (40+ confirmed)")
+    if not bad:
+        ctx.ok("R-TOPLEVEL", "src/ampform", f"all {n_top} expression classes of the package are defined at module (or class) level: picklable by reference")
+
+
+def check_canonical_nodes(ctx: Check, tree: Tree) -> None:
+    """R-CANONICAL: SymPy objects are pickled as (class, args) and rebuilt by calling the constructor,
+    which evaluates.  A node created with evaluate=False that is stored AS IS in the model (not
+    consumed by further arithmetic, which re-canonicalises) comes back flattened / re-ordered:
+    loads(dumps(model)) != model."""
+    builder_mod = "ampform.helicity::"
+    n_stores = 0
+    bad = 0
+    for q, fn in sorted(tree.funcs.items()):
+        if not q.startswith(builder_mod) or fn.outer is not None:
+            continue
+        rd = RD(fn.node)
+        for st in walk_function(fn.node):
+            if not (isinstance(st, ast.Assign) and isinstance(st.targets[0], ast.Subscript)):
+                continue
+            base = st.targets[0].value
+            if not (isinstance(base, ast.Attribute) and base.attr in {"components", "amplitudes", "parameter_defaults", "kinematic_variables"}):
+                continue
+            n_stores += 1
+            for origin in _direct_origins(tree, fn, rd, st.value, 0):
+                if isinstance(origin, ast.Call) and any(k.arg == "evaluate" and isinstance(k.value, ast.Constant) and k.value.value is False for k in origin.keywords):
+                    bad += 1
+                    ctx.violation("R-CANONICAL", f"{q}::{base.attr}::unevaluated-node", tree.loc(st),
+                                  f"{q}: `{unparse(st)[:60]}` stores `{unparse(origin)[:60]}` (evaluate=False) in the model as it is",
+                                  "after a pickle round trip the node is rebuilt with evaluation: nested Mul flattened / arguments re-ordered, the loaded model is not equal to the original")
+    if n_stores < 5:
+        raise AnalysisError(f"only {n_stores} stores into the model ingredients found (9 confirmed)")
+    if not bad:
+        ctx.ok("R-CANONICAL", "src/ampform/helicity/__init__.py", f"{n_stores} stores into components / amplitudes / parameter_defaults: none stores a node built with evaluate=False as it is")
+
+
+def _direct_origins(tree: Tree, fn: FuncInfo, rd: RD, expr: ast.AST, depth: int) -> list[ast.AST]:
+    """The expressions a value IS (through pure local aliases and one level of repo calls that return
+    it) - not what it was computed from."""
+    if depth > 3:
+        return []
+    if isinstance(expr, ast.Name):
+        out = []
+        for d in rd.reaching(expr):
+            if d.kind in {"assign", "aug"} and isinstance(d.value, ast.AST):
+                if d.kind == "aug":
+                    continue  # x *= y re-canonicalises
+                out += _direct_origins(tree, fn, rd, d.value, depth + 1)
+        return out
+    if isinstance(expr, ast.Call):
+        callee = tree.callee(expr, fn)
+        tgt = tree.funcs.get(callee) if callee else None
+        if tgt is not None and tgt.outer is None:
+            trd = RD(tgt.node)
+            out = []
+            for ret in [r for r in walk_function(tgt.node, nested=False) if isinstance(r, ast.Return) and r.value is not None]:
+                out += _direct_origins(tree, tgt, trd, ret.value, depth + 1)
+            return out
+        return [expr]
+    if isinstance(expr, ast.IfExp):
+        return _direct_origins(tree, fn, rd, expr.body, depth + 1) + _direct_origins(tree, fn, rd, expr.orelse, depth + 1)
+    return [expr]
+
+
+def check_reentrant_new(ctx: Check, tree: Tree) -> None:
+    """R-REENTRANT: func(*args), pickle, xreplace and subs rebuild a hand-written expression class by
+    calling __new__ on its own stored args.  Where __new__ converts an argument of kind K
+    (`isinstance(x, K)`) into a SymPy container (sp.Tuple) before storing it, the stored container
+    comes back as input: the same test must accept it (or another branch must), otherwise it falls
+    into the branch for scalars."""
+    hw = handwritten_expr_classes(tree)
+    n = 0
+    for q, cls in sorted(hw.items()):
+        new = cls.methods.get("__new__")
+        if new is None:
+            continue
+        for node in walk_function(new.node):
+            if not (isinstance(node, ast.If) and isinstance(node.test, ast.Call) and unparse(node.test.func) == "isinstance" and len(node.test.args) == 2):
+                continue
+            subject = unparse(node.test.args[0])
+            kinds = node.test.args[1]
+            kind_names = {unparse(k) for k in (kinds.elts if isinstance(kinds, ast.Tuple) else [kinds])}
+            stored = None
+            for st in node.body:
+                if isinstance(st, ast.Assign) and isinstance(st.value, ast.Call) and unparse(st.value.func) in {"sp.Tuple", "Tuple", "sympy.Tuple"}:
+                    stored = st
+            if stored is None:
+                continue
+            n += 1
+            accepts = bool(kind_names & {"sp.Tuple", "Tuple", "sympy.Tuple"}) or any(
+                isinstance(o, ast.If) and isinstance(o.test, ast.Call) and unparse(o.test.func) == "isinstance" and unparse(o.test.args[0]) == subject
+                and {"sp.Tuple", "Tuple", "sympy.Tuple"} & {unparse(k) for k in (o.test.args[1].elts if isinstance(o.test.args[1], ast.Tuple) else [o.test.args[1]])}
+                for o in node.orelse)
+            ctx.verdict(accepts, "R-REENTRANT", f"{q}.__new__::isinstance({subject}, {sorted(kind_names)})", tree.loc(node),
+                        f"{cls.name}.__new__: `{subject}` of kind {sorted(kind_names)} is stored as `{unparse(stored.value)[:40]}`; the stored sp.Tuple is accepted by the same dispatch when the instance is rebuilt from its args",
+                        None if accepts else "the stored sp.Tuple re-enters the branch for scalar indices: with a parent of known shape `-axis_size <= idx` raises TypeError - func(*args), pickle.loads, xreplace and subs of such a slice fail")
+    if n == 0:
+        ctx.info("R-REENTRANT", "src/ampform/sympy/_array_expressions.py", "no __new__ converts an argument kind into a stored SymPy container")
+
+
 def run(ctx: Check, tree: Tree) -> None:
     ctx.decided += [
         "values passed for non-SymPy fields inside the package are classes / functions / forwarded values, or instances of classes with value equality (R-ATTRIDENTITY); a state hook never hands out SymPy's cached hash (R-STATE)",
@@ -173,6 +299,9 @@ def run(ctx: Check, tree: Tree) -> None:
     else:
         ctx.section(check_state_hook, ctx, tree, hooks)
     ctx.section(check_attribute_identity, ctx, tree)
+    ctx.section(check_toplevel_classes, ctx, tree)
+    ctx.section(check_canonical_nodes, ctx, tree)
+    ctx.section(check_reentrant_new, ctx, tree)
 
     # ---- hand-written classes
     hw = handwritten_expr_classes(tree)
